@@ -765,6 +765,25 @@ func TestVerifWireMsg(t *testing.T) {
 	defer out.close()
 	r := verifRng(19)
 	runCases(t, out, "msg", wireApply, msgTags, func(emit func(string, []string)) {
+		// values that are well-formed JSON but no message — null, arrays (empty, of blanks, nested,
+		// with null members), bare scalars, objects without the members of a message — as JSON values
+		// against the model, and as texts in several white-space layouts under recover
+		{
+			deg := []jv{jNull(), jArr(), jArr(jArr()), jArr(jArr(), jArr()), jArr(jNull()), jArr(jNull(), jNull()), jArr(jArr(jNull())), jArr(jObj()), jObj(),
+				jInt(0), jStr(""), jBool(true), jBool(false), jArr(jInt(0)), jArr(jStr("a")), jDec("15", -1), jObj(jmem{"jsonrpc", jNull()}),
+				jObj(jmem{"jsonrpc", jStr("2.0")}, jmem{"id", jNull()}), jObj(jmem{"jsonrpc", jStr("2.0")}, jmem{"id", jArr()}, jmem{"method", jStr("m")}),
+				jObj(jmem{"jsonrpc", jStr("2.0")}, jmem{"method", jNull()}), jObj(jmem{"jsonrpc", jStr("2.0")}, jmem{"id", jInt(1)}, jmem{"error", jNull()}),
+				jObj(jmem{"jsonrpc", jStr("2.0")}, jmem{"id", jInt(1)}, jmem{"error", jArr()}), jObj(jmem{"jsonrpc", jStr("2.0")}, jmem{"id", jInt(1)}, jmem{"params", jNull()}, jmem{"method", jStr("m")})}
+			var ops []string
+			for _, v := range deg {
+				ops = append(ops, "decenc "+v.tok())
+				t := v.text()
+				for _, txt := range []string{t, " " + t + " ", "\t" + t + "\r\n", strings.NewReplacer("[", "[ ", "]", " ]", "{", "{\n", "}", "\n}", ",", " , ").Replace(t), t + t, t + ",", "[" + t, t + "]"} {
+					ops = append(ops, "fuzzdec x"+hx([]byte(txt)))
+				}
+			}
+			emit("no-message", ops)
+		}
 		n := verifN(4000, 80000)
 		for c := 0; c < n; c++ {
 			var ops []string
